@@ -23,7 +23,7 @@ NAMES = ["alpha", "Beta b", "γ-gamma", "delta/slash", "e" * 40, "ζ✓", "n0", 
 
 
 class Node:
-    __slots__ = ("uid", "kind", "cls", "parent", "name", "flags", "values", "assoc", "pgs", "meta", "dkind", "protected")
+    __slots__ = ("uid", "kind", "cls", "parent", "name", "flags", "values", "assoc", "pgs", "meta", "dkind", "protected", "expect_arrays")
 
     def __init__(self, uid, kind, cls, parent, name):
         self.uid, self.kind, self.cls, self.parent, self.name = uid, kind, cls, parent, name
@@ -31,6 +31,7 @@ class Node:
         self.values = None  # canonical values the user assigned (data only); None = not asserted
         self.assoc = None
         self.pgs = {}  # object only: pg name -> list of data uids
+        self.expect_arrays = {}  # array fields the user assigned last (canonical form)
         self.meta = None
         self.dkind = None
         self.protected = False
@@ -113,6 +114,7 @@ class Engine:
         self.last_footprint = None
         self.pending_victims: set[str] = set()
         self.parent_removed: set[str] = set()  # flat nodes the library sweeps lazily (or never)
+        self.unobserved_closes = 0.0  # share of closes before which the monitors read nothing from the live session
         self.stale_reuse: set[str] = set()  # identifiers re-used while such a node was still stored (C06 lanes only)
         self.freed = 0
         from geoh5py.workspace import Workspace
@@ -247,7 +249,7 @@ class Engine:
 
     def close_and_check(self, final=False):
         live = None
-        if any(getattr(m, "wants_live", False) for m in self.monitors):
+        if any(getattr(m, "wants_live", False) for m in self.monitors) and not (self.unobserved_closes and self.rng.random() < self.unobserved_closes):
             errors = []
             live = snap.api_snapshot(self.ws, errors=errors)
             self.live_errors = errors
@@ -280,6 +282,8 @@ class Engine:
             elif k == "move" and (objs or grps) and (len(grps) >= 1):
                 avail.append((k, w))
             elif k == "half_write":
+                avail.append((k, w))
+            elif k == "set_parts" and any(o.cls == "Curve" for o in objs):
                 avail.append((k, w))
             elif k == "clip" and (objs or grps):
                 avail.append((k, w))
@@ -432,6 +436,27 @@ class Engine:
         else:
             obj.vertices = np.asarray(obj.vertices) + np.array([0.0, 3.0, 0.0])
         self.rec.see("vertex-edits:" + how)
+
+    def op_set_parts(self, op):
+        """Re-segment a curve through its part labels (the cells follow from them)."""
+        objs = [o for o in self.model.of_kind("object") if o.cls in ("Curve",) and o.dkind != "auto"]
+        if not objs:
+            raise ExpectedRefusal("no curve")
+        o = self.rng.choice(objs)
+        obj = self.ent(o.uid)
+        nv = obj.n_vertices or 0
+        if nv < 4 or any(self.model.nodes[c].assoc == "CELL" for c in self.model.children(o.uid)):
+            raise ExpectedRefusal("too short, or carries cell data (its length follows the cells)")
+        cut = self.rng.randint(2, nv - 2)
+        labels = np.array([0] * cut + [1] * (nv - cut), dtype="int32")
+        if self.rng.random() < 0.3 and nv - cut >= 4:
+            labels[cut + 2:] = 2
+        op.update(cls=o.cls, target=o.uid, labels=labels.tolist())
+        self.last_footprint["content"].add(path_of(o))
+        obj.parts = labels
+        cells = [[i, i + 1] for i in range(nv - 1) if labels[i] == labels[i + 1]]
+        o.expect_arrays["cells"] = canon(np.asarray(cells, dtype="uint32"))
+        self.rec.see("parts-assigned")
 
     def op_remove_many(self, op):
         """One parent.remove_children call with several children, of different kinds where possible; sometimes the call is
@@ -1226,6 +1251,7 @@ DEFAULT_WEIGHTS = {
     "mk_deferred": 0.0,
     "half_write": 0.0,
     "clip": 0.0,
+    "set_parts": 0.0,
     "copy_out": 0.0,
 }
 
@@ -1290,6 +1316,10 @@ def compare_model(rec, prop, model: TreeModel, snapshot: dict, where: str, taint
             got = r.get("metadata") or {}
             ok = isinstance(got, dict) and all(meta_equal(got.get(k), v) for k, v in n.meta.items())
             rec.check(f"{prop}.model-metadata", ok, op=where, cls=n.cls, attr="metadata", detail=f"{u}: metadata {short(got)} expected to contain {short(n.meta)}")
+        for f, v in n.expect_arrays.items():
+            got = (r.get("arrays") or {}).get(f)
+            same = got == v or (isinstance(got, dict) and isinstance(v, dict) and got.get("data") == v.get("data") and got.get("shape") == v.get("shape"))
+            rec.check(f"{prop}.model-arrays", same, op=where, cls=n.cls, attr=f, detail=f"{u}: {f} {short(got)} expected {short(v)} (as assigned)")
         if n.kind == "object":
             got = {p["name"]: sorted(p["properties"] or []) for p in r.get("pgs", [])}
             exp = {k: sorted(v) for k, v in n.pgs.items()}
